@@ -128,17 +128,60 @@ def execute_plan(prop, plan):
 
 
 # ---------------------------------------------------------------- workers
-def _worker(pid, seed, tier, indices, wid, cur, beat, q):
+def _run_forked(prop, plan):
+    """Execute one plan in a forked child of this (pristine) worker: a run then
+    starts from a process in which the code under test has never executed."""
+    import pickle
+
+    rfd, wfd = os.pipe()
+    child = os.fork()
+    if child == 0:
+        code = 0
+        try:
+            os.close(rfd)
+            try:
+                r = ("ok", execute_plan(prop, plan))
+            except HarnessError as e:
+                r = ("harness", "%s\n%s" % (e, traceback.format_exc()))
+            except BaseException as e:  # noqa: BLE001
+                r = ("harness", "%r\n%s" % (e, traceback.format_exc()))
+            with os.fdopen(wfd, "wb") as f:
+                pickle.dump(r, f)
+        except BaseException:  # noqa: BLE001
+            code = 4
+        os._exit(code)
+    os.close(wfd)
+    with os.fdopen(rfd, "rb") as f:
+        data = f.read()
+    _, status = os.waitpid(child, 0)
+    if not data:
+        return ("died", status)
+    return pickle.loads(data)
+
+
+def _worker(pid, seed, tier, indices, wid, cur, beat, q, isolated=False):
     try:
         sys.path.insert(0, ROOT)
         prop = get_prop(pid)
         batch = []
+        if isolated:
+            from . import runner
+
+            runner.gufo()  # import the code under test, execute nothing
         for idx in indices:
             cur[wid] = idx
             beat[wid] = time.time()
             plan = make_plan(prop, seed, tier, idx)
             try:
-                r = execute_plan(prop, plan)
+                if isolated:
+                    kind, payload = _run_forked(prop, plan)
+                    if kind == "died":
+                        os._exit(9)  # let the supervisor record the crash for this index
+                    if kind == "harness":
+                        raise HarnessError(payload)
+                    r = payload
+                else:
+                    r = execute_plan(prop, plan)
                 r["index"] = idx
                 r["family"] = plan["family"]
             except HarnessError as e:
@@ -161,8 +204,10 @@ def _worker(pid, seed, tier, indices, wid, cur, beat, q):
 HANG_S = 120.0
 
 
-def run_batch(pid, seed, tier, indices, jobs):
-    """Execute run indices across forked workers. Returns (results, crashes)."""
+def run_batch(pid, seed, tier, indices, jobs, isolated=False):
+    """Execute run indices across forked workers. Returns (results, crashes).
+    isolated=True: every run in its own forked child (no state of the code under
+    test survives from one run to the next)."""
     ctx = mp.get_context("fork")
     q = ctx.Queue()
     jobs = max(1, min(jobs, len(indices)))
@@ -172,7 +217,7 @@ def run_batch(pid, seed, tier, indices, jobs):
     procs = {}
     remaining = {}
     for wid, sl in enumerate(slices):
-        p = ctx.Process(target=_worker, args=(pid, seed, tier, sl, wid, cur, beat, q))
+        p = ctx.Process(target=_worker, args=(pid, seed, tier, sl, wid, cur, beat, q, isolated))
         p.start()
         procs[wid] = p
         remaining[wid] = list(sl)
@@ -236,7 +281,7 @@ def run_batch(pid, seed, tier, indices, jobs):
                 if rest:
                     cur[wid] = -1
                     beat[wid] = time.time()
-                    np_ = ctx.Process(target=_worker, args=(pid, seed, tier, rest, wid, cur, beat, q))
+                    np_ = ctx.Process(target=_worker, args=(pid, seed, tier, rest, wid, cur, beat, q, isolated))
                     np_.start()
                     procs[wid] = np_
                 else:
@@ -541,19 +586,36 @@ def check(pid, tier="quick", seed=None, jobs=None, runs=None):
         print("HARNESS-ERROR run index %d (%s):\n%s" % (harness[0]["index"], harness[0]["family"], harness[0]["harness"]))
         return 2
     # determinism self-check: re-run a sample in fresh processes and compare trace hashes
-    good = [r for r in results if "trace" in r]
-    sample = good[:: max(1, len(good) // 24)][:24]
-    det_bad = []
-    if sample:
-        re_results, _ = run_batch(pid, seed, tier, [r["index"] for r in sample], max(1, min(3, jobs)))
-        by_idx = {r["index"]: r for r in re_results if "trace" in r}
-        for r in sample:
-            o = by_idx.get(r["index"])
-            if o is None or o["trace"] != r["trace"]:
-                det_bad.append(r["index"])
+    def selfcheck(results_now, isolated):
+        good_ = [r for r in results_now if "trace" in r]
+        sample_ = good_[:: max(1, len(good_) // 24)][:24]
+        bad_ = []
+        if sample_:
+            re_results, _ = run_batch(pid, seed, tier, [r["index"] for r in sample_], max(1, min(3, jobs)), isolated)
+            by_idx = {r["index"]: r for r in re_results if "trace" in r}
+            for r in sample_:
+                o = by_idx.get(r["index"])
+                if o is None or o["trace"] != r["trace"]:
+                    bad_.append(r["index"])
+        return good_, sample_, bad_
+
+    good, sample, det_bad = selfcheck(results, False)
+    isolation_note = None
     if det_bad:
-        print("HARNESS-ERROR nondeterministic replay for run indices %s" % det_bad[:10])
-        return 2
+        # Runs influence each other inside a worker process: the code under test keeps state
+        # that the reset hook does not know about (e.g. a process-wide cache). Fall back to one
+        # forked process per run, which is also what a replay is, and judge those results.
+        isolation_note = "batch execution was not reproducible for run indices %s; every run was re-executed in its own forked process" % det_bad[:6]
+        print("note: " + isolation_note)
+        results, crashes = run_batch(pid, seed, tier, indices, jobs, isolated=True)
+        harness = [r for r in results if "harness" in r]
+        if harness:
+            print("HARNESS-ERROR run index %d (%s):\n%s" % (harness[0]["index"], harness[0]["family"], harness[0]["harness"]))
+            return 2
+        good, sample, det_bad = selfcheck(results, True)
+        if det_bad:
+            print("HARNESS-ERROR nondeterministic replay for run indices %s (even with one process per run)" % det_bad[:10])
+            return 2
     known = load_known()
     # collect violations
     viol_runs = []
@@ -638,7 +700,7 @@ def check(pid, tier="quick", seed=None, jobs=None, runs=None):
             "seeds_per_hour": int(len(good) / wall * 3600) if wall > 0 else 0,
             "fault_and_probe_counts": dict(sorted(counters.items())),
             "probes_stuck_at_zero": zero_faults,
-            "determinism_selfcheck": {"runs_reexecuted_in_fresh_processes": len(sample), "trace_mismatches": 0},
+            "determinism_selfcheck": {"runs_reexecuted_in_fresh_processes": len(sample), "trace_mismatches": 0, "one_process_per_run": isolation_note},
             "components_real": REAL_COMPONENTS,
             "components_stub": STUB_COMPONENTS,
             "worker_crashes": len(crashes),
